@@ -168,6 +168,7 @@ def runC07 : P Verdict := do
         let mut runStart := 0                       -- first sample of the current constant-F0 voiced run
         let mut runPulses := 0
         let mut firstGapOfRun := true
+        let mut afterDownGlide := false
         let mut nsum := 0.0; let mut nsq := 0.0; let mut ncnt := 0
         let mut fail : Option String := none
         let mut kn : Option String := none
@@ -187,10 +188,13 @@ def runC07 : P Verdict := do
             if restart || glide || prevGlide then
               -- gaps are only constrained between pulses of one constant-period stretch
               lastPulse := none
+            if restart || glide then afterDownGlide := false
             if restart then
               runStart := f*fp; runPulses := 0; firstGapOfRun := true
             if prevGlide && !glide then
               runStart := f*fp; runPulses := 0; firstGapOfRun := false
+              -- after a downward glide the pulse counter may still exceed 1: gaps are unsettled until a regular one
+              afterDownGlide := periods[f-2]! > prev
             for i in [0:fp] do
               let n := f*fp+i
               let x := y[n]!
@@ -204,9 +208,14 @@ def runC07 : P Verdict := do
                   | some q =>
                     let gap := n - q
                     let lo := p.floor.toUSize.toNat; let hi := p.ceil.toUSize.toNat
+                    if gap == lo || gap == hi then afterDownGlide := false
                     if gap != lo && gap != hi then
+                      if afterDownGlide && gap < lo then
+                        -- known finding: the counter carried over from a steep downward glide shortens the first gap(s)
+                        kn := some "C07:short-gap-after-downward-glide"
+                        if fail.isNone then fail := some s!"pulse gap {gap} at sample {n} in a constant-F0 frame right after a downward glide, period {p} (floor {lo}, ceil {hi})"
                       -- F7: exactly integer period, first gap after a (re)start is T0-1
-                      if firstGapOfRun && p == p.floor && gap + 1 == lo then
+                      else if firstGapOfRun && p == p.floor && gap + 1 == lo then
                         kn := some "C07:first-gap-integer-period"
                         if fail.isNone then fail := some s!"first gap after a start is {gap} = T0-1 for the exactly integer period T0 = {p}"
                       else if fail.isNone then
@@ -334,16 +343,32 @@ def runC13 : P Verdict := do
         lm := lm.push (logMagAt h om)
         want := want.push (Float.log gain - c.stage.toFloat * logMagAt a (warp om c.alpha))
       let peak := lm.foldl (fun mx x => if x > mx then x else mx) (-1e300)
+      -- the response is observed truncated: bound the unseen remainder's contribution to any DFT bin by its
+      -- L1 norm, extrapolated geometrically from the last two eighths; a bin is measurable to 1e-4 neper only
+      -- if that bound is below 1e-4 of the bin's own magnitude
+      let l1 (a b : Nat) : Float := Id.run do
+        let mut t := 0.0
+        for i in [a:b] do t := t + fabs h[i]!
+        return t
+      let e7 := l1 (h.size * 6 / 8) (h.size * 7 / 8)
+      let e8 := l1 (h.size * 7 / 8) h.size
+      let r := if e7 == 0.0 then 0.0 else e8 / e7
+      let rem := if r < 1.0 then e8 * r / (1.0 - r) else 1e300
       let mut worst := 0.0; let mut atBin := 0
       for i in [0:k] do
-        if lm[i]! > peak - 11.5 then   -- within 100 dB of the spectral peak
+        if lm[i]! > peak - 11.5 && rem ≤ 1e-4 * Float.exp lm[i]! then   -- within 100 dB of the spectral peak, measurable
           let d := fabs (lm[i]! - want[i]!)
           if d > worst || d.isNaN then
             worst := if d.isNaN then 1e9 else d
             atBin := i
       if worst > 0.001 then return some s!"|H| deviates {worst} neper from K/|A|^s at bin {atBin}/{k} (order {v.length - 1}, stage {c.stage}, alpha {c.alpha}, log_gain {c.lg})"
       return none
-  pure { corr, oracle := orc, nontriv := true,
+  -- a magnitude deviation is keyed by its input, so that known_findings.json can list one specific input
+  let fingerprint := (v.foldl (· + ·) c.alpha).toBits.toNat
+  let known := match orc with
+    | some msg => if msg.startsWith "|H| deviates" then some s!"C13:f64-roundoff:{String.ofList (Nat.toDigits 16 fingerprint)}" else none
+    | none => none
+  pure { corr, oracle := orc, known, nontriv := true,
          cls := s!"ord{if v.length ≤ 7 then "<=6" else "big"}:{if (v.length - 1) % 2 == 0 then "even" else "odd"}:s{c.stage}:a{if c.alpha == 0.0 then "0" else "x"}:{if c.lg then "log" else "lin"}:b{if c.beta == 0.0 then "0" else "x"}",
          bitsOk := bo, bitsAll := ba }
 
